@@ -262,11 +262,25 @@ func alnum(s string) {
 	}
 }
 
-// serveConn runs the per-connection handler the way Serve starts it: the
-// connection is registered with the proxy first.
+// serveConn serves one connection through the exported API: Serve is given a listener that
+// hands out the connection once and then reports that it is closed, and the handler goroutine
+// Serve started is run until it has finished (or can make no more progress).
 func serveConn(p *Proxy, conn net.Conn) {
-	p.connsMu.Lock()
-	p.conns.Add(1)
-	p.connsMu.Unlock()
-	p.handleLoop(conn)
+	p.Serve(&oneConnListener{conn: conn})
+	vf.Quiesce()
 }
+
+type oneConnListener struct {
+	conn net.Conn
+	used bool
+}
+
+func (l *oneConnListener) Accept() (net.Conn, error) {
+	if l.used {
+		return nil, net.ErrClosed
+	}
+	l.used = true
+	return l.conn, nil
+}
+func (l *oneConnListener) Close() error   { return nil }
+func (l *oneConnListener) Addr() net.Addr { return fakeAddr("10.0.0.2:8080") }
